@@ -140,6 +140,44 @@ type loadKey struct {
 	cfg      Config
 	mode     packages.LoadMode
 	patterns string
+	epoch    int
+}
+
+// overlay replaces file contents for canary runs (see WithOverlay).
+var (
+	overlay      map[string][]byte
+	overlayEpoch int
+)
+
+// ReadFile reads a file of the analysed tree, honouring the canary overlay.
+func ReadFile(path string) ([]byte, error) {
+	if b, ok := overlay[path]; ok {
+		return b, nil
+	}
+	return os.ReadFile(path)
+}
+
+// WithOverlay runs fn with the repo-relative file's first occurrence of old
+// replaced by new, in memory only (go/packages overlay; nothing is written
+// to /repo). It reports whether the anchor text was present.
+func WithOverlay(rel, old, new string, fn func()) bool {
+	path := filepath.Join(RepoDir, rel)
+	b, err := os.ReadFile(path)
+	if err != nil || !strings.Contains(string(b), old) {
+		return false
+	}
+	loadMu.Lock()
+	overlay = map[string][]byte{path: []byte(strings.Replace(string(b), old, new, 1))}
+	overlayEpoch++
+	loadMu.Unlock()
+	defer func() {
+		loadMu.Lock()
+		overlay = nil
+		overlayEpoch++
+		loadMu.Unlock()
+	}()
+	fn()
+	return true
 }
 
 var (
@@ -164,7 +202,13 @@ func LoadAll(cfg Config, patterns ...string) ([]*packages.Package, error) {
 }
 
 func load(cfg Config, mode packages.LoadMode, patterns ...string) ([]*packages.Package, error) {
-	key := loadKey{cfg, mode, strings.Join(patterns, " ")}
+	loadMu.Lock()
+	ep := 0
+	if overlay != nil {
+		ep = overlayEpoch
+	}
+	loadMu.Unlock()
+	key := loadKey{cfg, mode, strings.Join(patterns, " "), ep}
 	loadMu.Lock()
 	if p, ok := loadCache[key]; ok {
 		loadMu.Unlock()
@@ -190,6 +234,9 @@ func load(cfg Config, mode packages.LoadMode, patterns ...string) ([]*packages.P
 		Env:   env,
 		Tests: false,
 		Fset:  Fset,
+	}
+	if overlay != nil {
+		pc.Overlay = overlay
 	}
 	if cfg.Tags != "" {
 		pc.BuildFlags = []string{"-tags=" + strings.ReplaceAll(cfg.Tags, " ", ",")}
